@@ -144,6 +144,9 @@ func checkC01(w *World, c *Check, tier string) {
 	}
 	structs := w.TaggedStructs()
 	c.stat("tagged_structs", len(structs))
+	checkNothingInvented(w, c, t, "C01.R-clobber")
+	checkAccessors(w, c, "C01.accessor", []string{"GetType", "GetID", "GetLink"})
+	c.floor("C01.accessor", 42)
 	c.floor("C01.W-cover", 300)
 	c.floor("C01.R-cover", 300)
 	c.floor("C01.RW", 300)
@@ -815,10 +818,11 @@ func checkC05(w *World, c *Check, tier string) {
 		return
 	}
 	c.floor("C05.R-cover", 300)
-	checkNothingInvented(w, c, t)
+	checkNothingInvented(w, c, t, "C05.invent")
 	checkCarriedState(w, c, "C05.carry")
 	c.floor("C05.R-map", 20)
 	c.floor("C05.shape", 2)
+	c.floor("C05.elements", 2)
 	c.floor("C05.type", 3)
 	for _, s := range w.TaggedStructs() {
 		jt := t.jsonTableFor(s)
@@ -872,6 +876,7 @@ func checkC05(w *World, c *Check, tier string) {
 	checkShapes(w, c, t)
 	checkDoubleLookup(w, c, t)
 	checkItemFunnel(w, c, t)
+	checkElementFunnel(w, c, t)
 }
 
 // checkShapes: getters that switch on (*fastjson.Value).Type() and hand back items must handle the three
@@ -1016,6 +1021,112 @@ func checkItemFunnel(w *World, c *Check, t *tables) {
 	}
 }
 
+// checkElementFunnel (C05.elements): a getter that hands back items and walks the members of a JSON array hands every
+// member to the item dispatcher (directly or through a helper that reaches it). A loop that turns the members into
+// items by another route — "the first member is a string, so they all are IRIs" — handles one shape only: the members
+// of another shape (an embedded object after an IRI) are silently dropped, which no document with uniform lists shows.
+func checkElementFunnel(w *World, c *Check, t *tables) {
+	disp := w.Func("JSONLoadItem")
+	if disp == nil {
+		return
+	}
+	reaches := map[*ssa.Function]bool{}
+	reachesDisp := func(g *ssa.Function) bool {
+		if g == nil {
+			return false
+		}
+		if v, ok := reaches[g]; ok {
+			return v
+		}
+		reaches[g] = false
+		for _, h := range w.Reach([]*ssa.Function{g}, nil) {
+			if h == disp {
+				reaches[g] = true
+			}
+		}
+		return reaches[g]
+	}
+	isArrayOfDoc := func(v ssa.Value) bool {
+		sl, ok := types.Unalias(v.Type()).Underlying().(*types.Slice)
+		return ok && isFastjsonValuePtr(sl.Elem())
+	}
+	n := 0
+	for _, f := range w.Funcs {
+		root := f
+		for root.Parent() != nil {
+			root = root.Parent()
+		}
+		if _, isGetter := t.getter[root]; !isGetter || !t.producesItems(root) || root.Signature.Recv() != nil {
+			continue
+		}
+		hs := map[*ssa.BasicBlock]bool{}
+		lh := loopHeaders(f)
+		for _, b := range f.Blocks {
+			for h := range lh[b] {
+				hs[h] = true
+			}
+		}
+		type loopUse struct {
+			funnel bool
+			other  []string
+			pos    ssa.Instruction
+		}
+		loops := map[*ssa.BasicBlock]*loopUse{}
+		var order []*ssa.BasicBlock
+		for _, b := range f.Blocks {
+			for _, in := range b.Instrs {
+				ld, ok := in.(*ssa.UnOp)
+				if !ok || ld.Op != token.MUL {
+					continue
+				}
+				ia, ok := ld.X.(*ssa.IndexAddr)
+				if !ok || !isArrayOfDoc(ia.X) {
+					continue
+				}
+				h := elementLoop(ld, hs)
+				if h == nil || ld.Referrers() == nil {
+					continue
+				}
+				lu := loops[h]
+				if lu == nil {
+					lu = &loopUse{pos: ld}
+					loops[h] = lu
+					order = append(order, h)
+				}
+				for _, r := range *ld.Referrers() {
+					call, ok := r.(*ssa.Call)
+					if !ok {
+						continue
+					}
+					cal := call.Common().StaticCallee()
+					if cal == nil {
+						continue
+					}
+					if cal == disp || reachesDisp(cal) || cal == root {
+						lu.funnel = true
+					} else if w.InPkg(cal) {
+						lu.other = append(lu.other, funcName(cal))
+					}
+				}
+			}
+		}
+		for i, h := range order {
+			lu := loops[h]
+			if !lu.funnel && len(lu.other) == 0 {
+				continue // the members are only inspected (kind tests), nothing is built from them here
+			}
+			n++
+			key := fmt.Sprintf("%s:loop#%d", funcName(f), i+1)
+			if lu.funnel {
+				c.ok("C05.elements", key, w.InstrPos(lu.pos), "every member goes to the item dispatcher")
+			} else {
+				c.bad("C05.elements", key, w.InstrPos(lu.pos), fmt.Sprintf("%s builds items from the members of a JSON array through %v only, not through the item dispatcher JSONLoadItem: members of any other shape (an embedded object or link among IRIs) are dropped from the decoded list", funcName(f), uniq(lu.other)))
+			}
+		}
+	}
+	c.stat("element_loops", n)
+}
+
 // groupUncoveredViews: when no field of a whole prefix view (e.g. the 31 Object fields of Profile) has a site,
 // the defect is one construct — the codec never reaches the view's codec — and is reported under one key.
 func groupUncoveredViews(w *World, c *Check, rule string, s *StructInfo, byF map[int][]*site, pos, what string) map[int]bool {
@@ -1062,7 +1173,7 @@ func isLeafStruct(w *World, s *StructInfo) bool {
 // fastjson value/object) or a constant — not by another property of the value being built (a total derived from the
 // number of items, a default copied from a sibling): such a value is "invented", it was not in the document, and an
 // independent reader of the same document does not see it.
-func checkNothingInvented(w *World, c *Check, t *tables) {
+func checkNothingInvented(w *World, c *Check, t *tables, rule string) {
 	isDocType := func(tt types.Type) bool {
 		n := namedOf(tt)
 		return n != nil && n.Obj().Pkg() != nil && strings.HasSuffix(n.Obj().Pkg().Path(), "fastjson")
@@ -1159,22 +1270,28 @@ func checkNothingInvented(w *World, c *Check, t *tables) {
 					continue
 				}
 				n++
-				_, other := fromDoc(st.Val, 0, map[ssa.Value]bool{})
+				doc, other := fromDoc(st.Val, 0, map[ssa.Value]bool{})
 				key := funcName(f) + ":" + fp.String()
 				cnt[key]++
-				if cnt[key] > 1 {
-					key = fmt.Sprintf("%s#%d", key, cnt[key])
+				nth := cnt[key]
+				if nth > 1 {
+					key = fmt.Sprintf("%s#%d", key, nth)
 				}
-				if other != "" && other != fp.String() {
-					c.bad("C05.invent", key, w.InstrPos(st), fmt.Sprintf("%s fills %s from %s of the value being built, not from the document: the decoded value holds a property the document does not say (and an independent reader does not see)", funcName(f), fp.String(), other))
+				_, isConst := unwrap(st.Val).(*ssa.Const)
+				if (isConst || (!doc && other == "")) && nth > 1 {
+					// a second store into a property this loader has already filled, with a value that owes nothing to
+					// the document (a constant, a default): whatever the document said is overwritten on that path
+					c.bad(rule, key, w.InstrPos(st), fmt.Sprintf("%s overwrites %s, which it has just read from the document, with a value that does not come from the document (%s): for the documents that take this path the decoded value does not hold what was written", funcName(f), fp.String(), shortVal(st.Val)))
+				} else if other != "" && other != fp.String() {
+					c.bad(rule, key, w.InstrPos(st), fmt.Sprintf("%s fills %s from %s of the value being built, not from the document: the decoded value holds a property the document does not say (and an independent reader does not see)", funcName(f), fp.String(), other))
 				} else {
-					c.ok("C05.invent", key, w.InstrPos(st), "filled from the document")
+					c.ok(rule, key, w.InstrPos(st), "filled from the document")
 				}
 			}
 		}
 	}
 	c.stat("loader_field_stores", n)
-	c.floor("C05.invent", 80)
+	c.floor(rule, 80)
 }
 
 // checkCarriedState (C05.carry): the callback handed to the JSON parser's member iteration (Object.Visit) runs once per
